@@ -24,5 +24,5 @@ def jobs(tier):
     return J
 
 
-META = {'functions': [], 'undecided_part': '',
+META = {'functions': ['setup_global', 'add_item', 'MIR_link (import binding)', 'MIR_load_module (export publication)', 'MIR_load_external'], 'undecided_part': '',
         'trusted_base': ['ghost one-key map standing for module_item_tab (models in harness/c13_link.c)', 'models/error.h', 'models/alloc_concrete.h']}
